@@ -343,55 +343,32 @@ def F_multiMatch (inp : Input) : Bool :=
   (toGen inp && p.srcFields.any (fun f => (p.st.toC.filter (fun c => c.rd == f)).length ≥ 2)) ||
   (fromGen inp && p.destFields.any (fun f => (p.st.fromC.filter (fun c => c.rd == f)).length ≥ 2))
 
-/-- F_namedScalarSub: a recursive mapping was chosen for named NON-struct types of the two packages -/
-def F_namedScalarSub (inp : Input) : Bool :=
-  let p := plan inp
-  (p.st.toC ++ p.st.fromC).any (fun c => isSubStrat c.strat && !((elemOf c.rd.ty).isStructNamed && (elemOf c.wr.ty).isStructNamed))
+/-- two fields of the source type (at any depth, exported or not) whose Pascal-cased names coincide, one
+    of them renamed by a `map:"Name"` tag: the tag map is keyed by the Pascal-cased name alone, so the text
+    does not say which of the two the tag renames -/
+def tagAmbiguous (t : Tree) : Bool :=
+  (allDecls t).any (fun f => (match f.tag with | .name _ => true | _ => false) &&
+    ((allDecls t).filter (fun g => pascalS g.name == pascalS f.name)).length ≥ 2)
 
-/-- F_tagKey: the tag map is keyed by the Pascal-cased field name but looked up by the raw one -/
-def topDecls : Tree → List FDecl
-  | .nil => []
-  | .field f rest => f :: topDecls rest
-  | .embed _ _ _ rest => topDecls rest
-
-def F_tagKey (inp : Input) : Bool :=
-  (topDecls inp.src).any (fun f => match f.tag with
-    | .name _ => isExported f.name && (pascalS f.name != f.name || f.joined)   -- `A, B int \`map:"X"\``: only A is keyed
-    | _ => false)
-
-/-- F_nestedTag: tags of promoted fields are not read at all -/
-def F_nestedTag (inp : Input) : Bool :=
-  (leavesOf inp.src ++ leavesOf inp.dest).any (fun l => l.depth > 0 && l.decl.tag != .none)
-
-/-- F_skipShadow: a top-level `map:"-"` field hides a promoted field of the same name from Go but not
-    from the generator, which then copies the tagged field -/
+/-- F_skipShadow: a PROMOTED `map:"-"` field hides a deeper promoted field of the same name from Go but
+    not from the generator, which then copies the tagged field (at the top level the name is hidden from both) -/
 def F_skipShadow (inp : Input) : Bool :=
-  let f := fun (t : Tree) => (leavesOf t).any (fun l => l.depth == 0 && l.decl.tag == .skip &&
-    (leavesOf t).any (fun m => m.depth > 0 && m.decl.name == l.decl.name))
+  let f := fun (t : Tree) => (leavesOf t).any (fun l => l.depth > 0 && l.decl.tag == .skip &&
+    (leavesOf t).any (fun m => m.depth > l.depth && m.decl.name == l.decl.name))
   f inp.src || f inp.dest
-
-/-- F_ptrConv: `*T(x)` is emitted for a pointer conversion (parses as a dereference) -/
-def F_ptrConv (inp : Input) : Bool :=
-  let p := plan inp
-  (p.st.toC ++ p.st.fromC).any (fun c => c.strat == .conv && isPtrTy c.wr.ty)
-
-/-- F_convSrcNamed: the conversion target of FromX is printed as `src.T(x)` / `<alias>.T(x)` inside package src -/
-def F_convSrcNamed (inp : Input) : Bool :=
-  let p := plan inp
-  fromGen inp && p.fromStmts.any (fun c => c.strat == .conv && c.wr.ty.mentionsSrc)
 
 def namesOk (inp : Input) : Bool :=
   (allNames inp.src ++ allNames inp.dest).all noUnderscore
 
+/-- plain mode: a source leaf renamed by a tag is matched under the tag — its own spelling does not matter -/
+def namesOk05 (inp : Input) : Bool :=
+  (((leavesOf inp.src).filter (fun l => match l.decl.tag with | .name _ => false | _ => true)).map (·.decl.name)
+    ++ allNames inp.dest).all noUnderscore
+
 def region05 (inp : Input) : String :=
   if !grammarOk inp || inp.srcNew || inp.destNew || inp.mapperPtr == some true then "Out"
-  else if F_tagKey inp then "F_tagKey"
-  else if !namesOk inp then "Out"
-  else if F_nestedTag inp then "F_nestedTag"
+  else if !namesOk05 inp || tagAmbiguous inp.src then "Out"
   else if F_skipShadow inp then "F_skipShadow"
-  else if F_namedScalarSub inp then "F_namedScalarSub"
-  else if F_ptrConv inp then "F_ptrConv"
-  else if F_convSrcNamed inp then "F_convSrcNamed"
   else if F_multiMatch inp then "F_multiMatch"
   else if !uniquePairs inp then "WFa"
   else "WF"
@@ -558,18 +535,7 @@ def writesOf (tree : Tree) (ctor : Option (List CtorArg)) (stmts : List Claim) (
    | none => 0) +
   (stmts.filter (fun c => match resolveField tree c.wr with | some wl => wl.path == l.path | none => false)).length
 
-/-- `zeroValue` (ctor.go) has no case for alias types: a constructor parameter of type `any` that needs
-    the zero literal makes the run fail with "not supported" — whichever direction is requested -/
-def ctorZeroFatal (inp : Input) : Bool :=
-  let p := plan inp
-  let side := fun (nm : Field → Field → Bool) (fields params : List Field) =>
-    params.any (fun q => q.ty == .basic "any" && !(ctorFold inp.conv inp.fns nm fields params []).2.any (fun a => a.p == q))
-  -- the zero literals are computed for every unmatched parameter, before it is known whether the constructor is used
-  side inp.nm p.srcFields (sideParams inp.dest inp.destNew) ||
-  side (canNameMatch [] inp.ic) p.destFields (sideParams inp.src inp.srcNew)
-
 def obs15 (inp : Input) : List (String × String) :=
-  if ctorZeroFatal inp then [("exit", "1")] else
   if !modelCompiles inp then [("compile", "error")] else
   let p := plan inp
   obs05 inp
@@ -599,17 +565,6 @@ def genStmts (inp : Input) : List Claim :=
   let p := plan inp
   (if toGen inp then p.toStmts else []) ++ (if fromGen inp then p.fromStmts else [])
 
-/-- F_setOnlyRead: a set-only field on the reading side is "read" as `x.SetF` (a method value): does not compile -/
-def F_setOnlyRead (inp : Input) : Bool :=
-  (genStmts inp).any (fun c => c.rd.isSet) || (genArgs inp).any (fun a => match a.rd with | some rd => rd.isSet | none => false)
-
-/-- F_ctorPriority: a constructor argument is assigned / converted although a mapper method with
-    exactly those types exists (plain field mapping would call the method) -/
-def F_ctorPriority (inp : Input) : Bool :=
-  (genArgs inp).any (fun a => match a.rd with
-    | some rd => (a.strat == .assign || a.strat == .conv) && (firstFn (indexed inp.fns) rd.ty a.p.ty).isSome
-    | none => false)
-
 /-- F_skipTagNew: `map:"-"` on a field of an accessor-mode type is ignored — its getter, setter and
     constructor parameter come from the generated interfaces / the constructor, not from the field list -/
 def F_skipTagNew (inp : Input) : Bool :=
@@ -629,25 +584,6 @@ def F_ctorNoSub (inp : Input) : Bool :=
     | [c] => isSubStrat c.2
     | _ => false))
 
-/-- F_ctorTag: the source constructor's parameters are matched WITHOUT the tag map
-    (`makeCtorMatch(…, nil, …)`), so a tagged constructor-only field of the source type is never written by FromX -/
-def F_ctorTag (inp : Input) : Bool :=
-  fromGen inp && inp.srcNew && (leavesOf inp.src).any (fun l => ctorOnly l &&
-    (match l.decl.tag with | .name _ => true | _ => false) && (candsFrom inp l).length == 1)
-
-/-- F_ctorZeroAny: see `ctorZeroFatal` -/
-def F_ctorZeroAny (inp : Input) : Bool := ctorZeroFatal inp
-
-/-- the leaf lies below an embedded POINTER struct -/
-def underPtr (t : Tree) (l : Leaf) : Bool := (properPrefixes l.path).any (ptrPaths [] t).contains
-
-/-- F_ctorPtrEmbed: the constructor parameters that initialise a POINTER-embedded struct
-    (`Base: &Base{id: id}`) are not recovered (extractFromCompositeLit ignores `&T{…}`): a constructor-only
-    field down there is never written -/
-def F_ctorPtrEmbed (inp : Input) : Bool :=
-  (toGen inp && inp.destNew && (leavesOf inp.dest).any (fun l => ctorOnly l && underPtr inp.dest l && (candsTo inp l).length == 1)) ||
-  (fromGen inp && inp.srcNew && (leavesOf inp.src).any (fun l => ctorOnly l && underPtr inp.src l && (candsFrom inp l).length == 1))
-
 def isPanic : Outcome → Bool
   | .panic => true
   | _ => false
@@ -661,31 +597,14 @@ def F_ptrEmbedSetter (inp : Input) : Bool :=
 
 def region15 (inp : Input) : String :=
   if !grammarOk inp || !(inp.srcNew || inp.destNew) || !namesOk inp then "Out"
-  else if F_ctorZeroAny inp then "F_ctorZeroAny"
-  else if F_setOnlyRead inp then "F_setOnlyRead"
+  else if tagAmbiguous inp.src || F_skipShadow inp then "Out"
   else if !modelCompiles inp then "Out"
   else if F_ptrEmbedSetter inp then "F_ptrEmbedSetter"
   else if F_skipTagNew inp then "F_skipTagNew"
-  else if F_ctorPtrEmbed inp then "F_ctorPtrEmbed"
   else if F_ctorNoSub inp then "F_ctorNoSub"
-  else if F_ctorTag inp then "F_ctorTag"
-  else if F_ctorPriority inp then "F_ctorPriority"
   else if F_multiMatch inp then "Out"
   else "WF"
 
-
-/-! ## Termination of the generator itself -/
-
-/-- F_selfEmbed: the generator does not terminate on a cyclic embedding (see `genDiverges`) -/
-def F_selfEmbed (inp : Input) : Bool := genDiverges inp
-
-/-- what a run of the tool shows: nothing but the failed run when the generator diverges -/
-def obsGen (inp : Input) (o : List (String × String)) : List (String × String) :=
-  if genDiverges inp then [("exit", "crash")] else o
-
-/-- the region of a case: `f` (the finding, or "Out" where the property does not own it) when the generator diverges -/
-def regionGen (inp : Input) (r f : String) : String :=
-  if r != "Out" && F_selfEmbed inp then f else r
 
 /-! ## C01 leg: does the output compile -/
 
@@ -693,21 +612,12 @@ def allOk : List (String × String) :=
   [("exit", "0"), ("compile", "ok"), ("header", "ok"), ("gofmt", "ok"), ("package", "ok")]
 
 def obs01 (inp : Input) : List (String × String) :=
-  if ctorZeroFatal inp then [("exit", "1")] else
   [("exit", "0"), ("compile", if modelCompiles inp then "ok" else "error"), ("header", "ok"), ("gofmt", "ok"), ("package", "ok")]
 
-/-- WF: a well-typed pair inside the grammar whose output type-checks; F_map…: input classes on which
-    the unchanged generator emits Go that does not compile (the C05 / C15 findings of that kind) -/
+/-- WF: a well-typed pair inside the grammar whose output type-checks -/
 def region01 (inp : Input) : String :=
   if !grammarOk inp || !namesOk inp then "Out"
-  else if ctorZeroFatal inp then "Out"          -- the run fails (exit 1): no output to compile (C15 F_ctorZeroAny)
   else if modelCompiles inp then "WF"
-  else if F_setOnlyRead inp then "F_mapSetOnlyRead"
-  else if F_namedScalarSub inp then "F_mapNamedScalarSub"
-  else if (genStmts inp).any (fun c => c.strat == .conv && isPtrTy c.wr.ty) ||
-          (genArgs inp).any (fun a => a.strat == .conv && isPtrTy a.p.ty) then "F_mapPtrConv"
-  else if (genStmts inp).any (fun c => c.strat == .conv && c.wr.ty.mentionsSrc) ||
-          (genArgs inp).any (fun a => a.strat == .conv && a.p.ty.mentionsSrc) then "F_mapConvSrcNamed"
   else "Out"
 
 end ShootVerif.Mapper
